@@ -51,6 +51,22 @@ func (d *dumper) objID(o types.Object) int {
 	return id
 }
 
+func singleTermCore(tp *types.TypeParam) types.Type {
+	iface, ok := tp.Constraint().Underlying().(*types.Interface)
+	if !ok || iface.NumMethods() != 0 || iface.NumEmbeddeds() != 1 {
+		return nil
+	}
+	switch e := iface.EmbeddedType(0).(type) {
+	case *types.Union:
+		if e.Len() == 1 {
+			return e.Term(0).Type().Underlying()
+		}
+	default:
+		return e.Underlying()
+	}
+	return nil
+}
+
 func (d *dumper) typeID(t types.Type) int {
 	if t == nil {
 		return -1
@@ -73,11 +89,20 @@ func (d *dumper) typeID(t types.Type) int {
 			m["named"] = n.Obj().Name()
 		}
 	}
-	if _, ok := t.(*types.TypeParam); ok {
-		m["k"] = "typeparam"
-		return id
+	var under types.Type = t.Underlying()
+	if tp, ok := t.(*types.TypeParam); ok {
+		// a type parameter whose constraint has a single-term core type that is a slice (`S ~[]E`) is handled as that
+		// slice type; every other type parameter is an opaque interface-like value
+		core := singleTermCore(tp)
+		if sl, ok := core.(*types.Slice); ok {
+			m["tp"] = true
+			under = sl
+		} else {
+			m["k"] = "typeparam"
+			return id
+		}
 	}
-	switch u := t.Underlying().(type) {
+	switch u := under.(type) {
 	case *types.Basic:
 		m["k"] = "basic"
 		m["b"] = u.Name()
